@@ -1,6 +1,13 @@
+// Check C16: produce requests respect the configured size and count limits, and flush on time.
+// Schedule layer (GX, deviation-bounded) + bounded-exhaustive size/configuration family, both on the
+// rig engine/rigs/limrig.
 package c16
 
 import (
+	"encoding/json"
+	"fmt"
+	"os"
+	"path/filepath"
 	"testing"
 	"time"
 
@@ -11,13 +18,72 @@ import (
 
 func TestMain(m *testing.M)   { gx.Main(m) }
 func TestWorker(t *testing.T) { gx.WorkerMain(t) }
+
 func TestCheck(t *testing.T) {
-	gx.RunCheck(t, "C16", limrig.Scenarios(), 55*time.Second, 9*time.Minute+30*time.Second, limrig.Assumptions,
+	if p := os.Getenv("VERIF_REPLAY"); p != "" && os.Getenv("VERIF_WORKER") == "" {
+		gx.ExitCode = replay(t, p)
+		return
+	}
+	gx.RunCheck(t, "C16", limrig.Scenarios(), 50*time.Second, 9*time.Minute+30*time.Second, limrig.Assumptions,
 		func(t *testing.T, c *ev.Check, e *gx.Explorer) bool {
-			fam := limrig.Family(ev.Tier() == "thorough")
+			thorough := ev.Tier() == "thorough"
+			small := limrig.SmallFamily(thorough)
+			sb := 1
+			if thorough {
+				sb = 2
+			}
+			c.Set("small_family_size", len(small))
+			c.Set("small_family_bound", sb)
+			sdone, sok := e.ExploreMany(small, sb, 0)
+			c.Set("small_family_done", sdone)
+			fam := limrig.Family(thorough)
 			c.Set("family_size", len(fam))
 			done, ok := e.ExploreMany(fam, 0, 0)
 			c.Set("family_done", done)
+			c.Set("family_rule", limrig.FamilyRule)
+			c.Set("family_exhaustive", ok && sok)
+			ok = ok && sok
 			return ok
 		})
+}
+
+// replay re-executes a violation artefact. A case of the size/configuration family is the scenario with
+// its default schedule (every recorded choice is entry 0): it is re-executed from the scenario name
+// alone, so that the replay still works when the code under test has changed and the default schedule
+// has a different shape (e.g. one more produce request). A case with deviations is replayed choice by
+// choice by the engine (a divergence there is an engine error, exit 3, as for every GX check).
+func replay(t *testing.T, path string) int {
+	b, err := os.ReadFile(path)
+	if err != nil {
+		fmt.Println("ENGINE-ERROR", err)
+		return 3
+	}
+	var v struct {
+		Property string    `json:"property"`
+		Replay   gx.Replay `json:"replay"`
+	}
+	if err := json.Unmarshal(b, &v); err != nil {
+		fmt.Println("ENGINE-ERROR", err)
+		return 3
+	}
+	deviations := 0
+	for _, c := range v.Replay.Choices {
+		if c.I != 0 {
+			deviations++
+		}
+	}
+	if deviations > 0 || len(v.Replay.Choices) == 0 || os.Getenv("VERIF_REPLAY_N") != "" {
+		return gx.ReplayFile(t, path)
+	}
+	fmt.Printf("default-schedule case: re-executing scenario %s from its name\n", v.Replay.Scenario)
+	dir := filepath.Join(ev.Root(), ".build", "C16")
+	_ = os.MkdirAll(dir, 0o755)
+	tmp := filepath.Join(dir, fmt.Sprintf("replay-%d.json", os.Getpid()))
+	nb, _ := json.Marshal(map[string]interface{}{"property": v.Property, "replay": gx.Replay{Scenario: v.Replay.Scenario}})
+	if err := os.WriteFile(tmp, nb, 0o644); err != nil {
+		fmt.Println("ENGINE-ERROR", err)
+		return 3
+	}
+	defer os.Remove(tmp)
+	return gx.ReplayFile(t, tmp)
 }
